@@ -49,7 +49,8 @@ func (e *Engine) evalBool(st *State, env *Env, x Expr) string {
 func (e *Engine) evalSpec(st *State, env *Env, x Expr) Val {
 	saved := env.st
 	env.st = st
-	defer func() { env.st = saved }()
+	e.specEval++
+	defer func() { env.st = saved; e.specEval-- }()
 	return env.eval(x)
 }
 
@@ -592,7 +593,22 @@ func (env *Env) evalCall(n ECall) Val {
 		return term(fmt.Sprintf("(= (ityp %s) %d)", v.T, e.S.TypeID(t)), tBool)
 	case "fresh":
 		v := env.eval(n.Args[0])
-		return term(fmt.Sprintf("(> %s %s)", e.asTerm(env.st, v), env.old.alloc), tBool)
+		ref := e.asTerm(env.st, v)
+		if _, ok := v.Typ.Underlying().(*types.Slice); ok {
+			ref = fmt.Sprintf("(sl_ref %s)", ref)
+		}
+		return term(fmt.Sprintf("(> %s %s)", ref, e.initAlloc), tBool)
+	case "unchanged":
+		// unchanged(s): the backing array of slice s is what it was at entry
+		v := env.eval(n.Args[0])
+		sl, ok := v.Typ.Underlying().(*types.Slice)
+		if !ok {
+			limitf("unchanged() of non-slice")
+		}
+		name, sort := e.arrMapName(sl.Elem())
+		cur := e.heapGet(env.st, name, sort)
+		old := e.heapGet(env.old, name, sort)
+		return term(fmt.Sprintf("(= (select %s (sl_ref %s)) (select %s (sl_ref %s)))", cur, v.T, old, v.T), tBool)
 	case "implies":
 		a, b := env.eval(n.Args[0]), env.eval(n.Args[1])
 		return term(fmt.Sprintf("(=> %s %s)", a.T, b.T), tBool)
